@@ -117,7 +117,7 @@ def resJson : Conc.Res → Json
 
 def pcJson : Conc.PC → Json
   | .start => "start" | .acq => "acq" | .contains => "contains" | .getitem => "getitem"
-  | .setitem => "setitem" | .rel => "rel" | .done => "done"
+  | .setitem => "setitem" | .rel => "rel" | .source => "source" | .done => "done"
 
 def optJson {α : Type} (f : α → Json) : Option α → Json
   | none => Json.null
